@@ -72,12 +72,12 @@ for _pid, _text, _also in [
                              "C03_old_output_irrelevant_bytes", "C03_explicit_stack_planner_is_recursive_planner"],
                      "C05": ["C05_failed_write_not_ok", "C05_rerun_completes", "C05_output_file_reports_failed_write",
                              "C05_unflushed_would_lose_last_error"],
-                     "C06": ["C06_fetch_exact", "C06_archive_fetch_exact"],
-                     "C13": ["C13_write_trace_spec"]}[_pid],
+                     "C06": ["C06_fetch_exact", "C06_archive_fetch_exact", "C06_fetch_exact_bytes"],
+                     "C13": ["C13_write_trace_spec", "C13_write_economy_bytes"]}[_pid],
         "suites": ["planner", "clone"] + (["cliclone"] if _pid in ("C02", "C03", "C06") else []) + (["clifault"] if _pid == "C05" else [])
-                  + (["hashkey"] if _pid == "C02" else []) + (["cbytes"] if _pid in ("C02", "C03") else []),
+                  + (["hashkey"] if _pid == "C02" else []) + (["cbytes"] if _pid in ("C02", "C03") else []) + (["cliwrites"] if _pid in ("C03", "C13") else []),
         "extra_case_files": {"planner": ["planner-iter"]},
-        "needs_cli": _pid in ("C02", "C03", "C06", "C05"), "also": _also, "rule": _CLONE_RULE, "assumes": _CLONE_ASSUMES,
+        "needs_cli": _pid in ("C02", "C03", "C06", "C05", "C13"), "also": _also, "rule": _CLONE_RULE, "assumes": _CLONE_ASSUMES,
         "trusted_base": [], "level_text": _text, "level_note": _CLONE_NOTE,
     }
 
@@ -233,7 +233,7 @@ PROPS["C11"] = {
 }
 PROPS["C17"] = {
     "theorems": ["C17_unknown_field_skipped", "C17_decode_with_leading_unknown", "C17_decode_with_trailing_unknown",
-                 "C17_conforming_archive_cloned"],
+                 "C17_conforming_archive_cloned", "C17_free_encoding_decodes", "C17_writer_layout_is_one_of_them", "C17_wire_encoding_decodes", "C17_free_is_wire"],
     "suites": ["protodec", "conform", "tryinit"],
     "rule": "cases: archives written by the harness' independent encoder with every freedom of the format (either magic, offset "
             "slack, stored chunks permuted with gaps, raw/compressed per chunk, unknown fields of all wire types incl. groups, any "
